@@ -237,6 +237,8 @@ def main():
     ap.add_argument('--jobs', type=int, default=int(os.environ.get('VERIF_JOBS', '0') or 0))
     ap.add_argument('--replay')
     ap.add_argument('--digests', type=int)
+    ap.add_argument('--digest-range', help='A:B - print digests of random indices A..B-1 (determinism proofs)')
+    ap.add_argument('--digest-sweep', help='A:B - print digests of all scenarios of sweep cells A..B-1')
     ap.add_argument('--runs', type=int, help='override the number of random runs')
     ap.add_argument('--no-evidence', action='store_true')
     ap.add_argument('--no-minimise', action='store_true')
@@ -247,6 +249,26 @@ def main():
     if args.digests is not None:
         mod = load_prop(pid)
         print(json.dumps(digests_for(mod, pid, args.seed, list(range(args.digests)))))
+        return EXIT_OK
+
+    if args.digest_range is not None:
+        a, b = (int(x) for x in args.digest_range.split(':'))
+        mod = load_prop(pid)
+        print(json.dumps(digests_for(mod, pid, args.seed, list(range(a, b)))))
+        return EXIT_OK
+    if args.digest_sweep is not None:
+        a, b = (int(x) for x in args.digest_sweep.split(':'))
+        mod = load_prop(pid)
+        out = []
+        for cell in mod.sweep_cells(args.tier)[a:b]:
+            for scn in mod.sweep_expand(cell):
+                viols, hist = run_scenario(mod, scn)
+                h = hashlib.sha256()
+                h.update(json.dumps(scn, sort_keys=True).encode())
+                h.update((hist.digest if hist else 'nohist').encode())
+                h.update(json.dumps(sorted(v.cls for v in viols)).encode())
+                out.append(h.hexdigest())
+        print(json.dumps(out))
         return EXIT_OK
 
     reexec_with_hashseed()
@@ -328,7 +350,8 @@ def main():
     import minimise
     exit_code = EXIT_OK
     reported = []
-    os.makedirs(os.path.join(VERIF, 'replays'), exist_ok=True)
+    replay_dir = os.environ.get('VERIF_REPLAY_DIR') or os.path.join(VERIF, 'replays')
+    os.makedirs(replay_dir, exist_ok=True)
     for cls in sorted(total['viol']):
         ent = total['viol'][cls]
         first = ent['first']
@@ -344,7 +367,7 @@ def main():
         scn['prop'] = pid
         scn['violation_class'] = cls
         name = '%s-%s.json' % (pid, hashlib.sha1(cls.encode()).hexdigest()[:10])
-        path = os.path.join(VERIF, 'replays', name)
+        path = os.path.join(replay_dir, name)
         with open(path, 'w') as f:
             json.dump(scn, f, indent=1, sort_keys=True)
         # replay in a fresh interpreter must fail the same way
@@ -366,12 +389,32 @@ def main():
 
     wall = time.time() - t0
     if not args.no_evidence:
+        total['line_reach'] = line_reach(mod, pid, args, cells)
         write_evidence(mod, pid, args, total, wall, reported, det_msg, n_cells, done_random, stopped_early, jobs)
     print('%s %s: %d scenarios (%d sweep cells, %d random), %d distinct non-trivial classes, '
           '%.0f simulated s, %.1f s wall, violations: %d classes'
           % (pid, args.tier, total['n'], n_cells, done_random, len(total['distinct']),
              total['vtime_us'] / 1e6, wall, len([r for r in reported if not r['known']])))
     return exit_code
+
+
+def line_reach(mod, pid, args, cells):
+    """Reach probe on a traced sample (first scenarios of every sweep cell + the first random indices)."""
+    import reach
+    sample = []
+    per_cell = 4 if args.tier == 'quick' else 12
+    for cell in cells:
+        for j, scn in enumerate(mod.sweep_expand(cell)):
+            if j >= per_cell:
+                break
+            sample.append(scn)
+    n = 120 if args.tier == 'quick' else 1500
+    for idx in range(n):
+        sample.append(mod.gen(scenario_rng(args.seed, pid, idx), idx))
+    try:
+        return reach.report(sample, getattr(mod, 'REACH_FOCUS', None))
+    except Exception:
+        return {'error': traceback.format_exc()[-600:]}
 
 
 def replay(mod, pid, path, known):
@@ -428,6 +471,7 @@ def write_evidence(mod, pid, args, total, wall, reported, det_msg, n_cells, done
             'stub': ['serial.Serial -> SimSerial', 'comports() -> SimBus', 'EiBotBoard firmware -> SimBoard',
                      'foreign/silent USB devices', 'calling application -> generated op list']},
         'determinism_selftest': det_msg,
+        'line_reach_traced_sample': total.get('line_reach'),
         'unregistered_methods': introspect_unregistered(),
         'violation_classes': reported,
     }
